@@ -10,7 +10,7 @@ from .values import Val, UnsupportedError
 from .state import State, Raise, GlobalRef, BoundMethod
 from .speceval import SpecEval, SpecError, const_value, pure_len, pure_str, pure_method, apply_uf, fold_facts_append, fold_facts_concat
 from .exec_expr import ExprMixin
-from .exec_core import LOG_ROOTS, DROPPED_CALLS
+from .exec_core import _has_quantifier, LOG_ROOTS, DROPPED_CALLS
 
 _pure_fns = {}
 
@@ -290,8 +290,16 @@ class CallMixin(ExprMixin):
                 raise UnsupportedError(f"precondition of {c.key}: {exc}")
             st.assume(*facts)
             del facts[:]
-            self.oblige("pre", st, g, f"precondition of {c.key} at call site: {text}", line, extra={"callee": c.key, "clause": text})
-            st.assume(g)
+            can_hold = z3.is_true(z3.simplify(g)) or _has_quantifier(g) or self.feasible(st, g)
+            extra = {"callee": c.key, "clause": text}
+            if not can_hold and self.feasible(st):
+                extra["definite"] = True      # refuted by the quantifier-free part of the path condition alone
+            self.oblige("pre", st, g, f"precondition of {c.key} at call site: {text}", line, extra=extra)
+            if can_hold:
+                st.assume(g)
+            # else: the clause cannot hold on this path - the obligation above fails for certain.  It is not assumed (that would
+            # make the rest of the path vacuous): the callee's postcondition is applied as if the call went through, so the
+            # remainder of the caller is still checked.
         post = st            # mutate in place: the pre-state is the snapshot
         # pure contracts are functions of their arguments and of the fields of the records they read
         pure_result = None
